@@ -41,7 +41,7 @@ def front_of(fn):
     return None
 
 
-def is_input_derived(t):
+def is_input_derived(t, ctx=None, depth=2):
     """does the term carry information from the parsed input (some field/param origin), not only constants?"""
     for o, _ in TM.paths(t):
         if o[0] in ('field', 'param'):
@@ -49,6 +49,14 @@ def is_input_derived(t):
     for s in P.subterms(t):
         if s[0] in ('field', 'param', 'call'):
             return True
+        if s[0] == 'agg' and ctx is not None and depth > 0:
+            # a record literal (built by a helper): look at what its members are made from
+            _, adt, fnkey, nodeid, envid = s
+            afn = ctx.pv.fn_by_key.get(fnkey)
+            node = afn.nodes.get(nodeid) if afn is not None else None
+            for f in (node or {}).get('fields', []):
+                if is_input_derived(ctx.pv.eval(afn, f['e'], ctx.pv.envs[envid], 0), ctx, depth - 1):
+                    return True
     return False
 
 
@@ -68,7 +76,7 @@ def rule_sib(ctx):
                 continue
             for f in node['fields']:
                 t = ctx.pv.eval(fn, f['e'], H.sym_env(fn), 0)
-                per[fr].setdefault(f['name'], []).append((is_input_derived(t), t, fn, node))
+                per[fr].setdefault(f['name'], []).append((is_input_derived(t, ctx), t, fn, node))
         names = set(per['sdl']) | set(per['json'])
         for fname in sorted(names):
             a = per['sdl'].get(fname)
@@ -229,8 +237,8 @@ def rule_sib(ctx):
                 else:
                     obs.append(bad('SIB-3', inst, 'deprecation is not `isDeprecated == true => Some(reason)`: isDeprecated null/true/false give %s' % verdict,
                                    node.get('sp', ''), 'deprecations differ between the JSON and the SDL rendering of a schema'))
-    if cnt['sdl'] < 3 or cnt['json'] < 2:
-        obs.append(bad('SIB-3', 'floor', 'anchor-missing: StoredField built at %d SDL / %d JSON sites (expected >=3 / >=2: object, extension, interface)' % (cnt['sdl'], cnt['json'])))
+    if cnt['sdl'] < 1 or cnt['json'] < 1:
+        obs.append(bad('SIB-3', 'floor', 'anchor-missing: StoredField built at %d SDL / %d JSON sites (expected at least one in each front end)' % (cnt['sdl'], cnt['json'])))
     return obs
 
 
@@ -275,6 +283,13 @@ def rule_sdl_details(ctx):
                 for m_ in walk(e):
                     if m_['k'] == 'mcall' and m_['method'] in FILT:
                         filt.add(m_['method'])
+                    # a helper that builds the collection: what it is handed, and how it walks it
+                    if m_['k'] in ('call', 'mcall') and ctx.pv.local_fns(m_.get('callee')):
+                        for a_ in m_['args']:
+                            fields |= TM.fields_in(ctx.pv.eval(fn, a_, senv, 0))
+                        for _f, h_ in H.deep_nodes(ctx, fn, m_, 2):
+                            if h_['k'] == 'mcall' and h_['method'] in FILT:
+                                filt.add(h_['method'])
             return fields, filt
         for fname, src in (('fields', 'ObjectTypeExtension.fields'), ('implements_interfaces', 'ObjectTypeExtension.implements_interfaces')):
             inst = 'extend-type/' + fname
@@ -503,74 +518,78 @@ def rule_types3(ctx):
         if fn is None:
             obs.append(bad('TYPES-3', fr + '/floor', 'anchor-missing: %s not found' % name))
             continue
-        loops = [n for n in walk(fn.body) if n['k'] == 'loop']
-        ms = [n for n in walk(fn.body) if n['k'] == 'match']
-        if not loops or not ms:
-            obs.append(undecided('TYPES-3', fr + '/shape', 'extractor is not a loop over a match', fn.loc))
-            continue
-        m = ms[0]
+        extractor_fns.add(fn.key)
+        # the extractor and the schema-layer helpers it delegates to
+        cgx = callgraph(ctx)
+        family = [fn] + [f_ for f_ in (ctx.fn_by_key(k_) for k_ in sorted(cgx.reachable([fn.key])) if k_ != fn.key)
+                         if f_ is not None and not f_.from_macro and norm_path(f_.path).startswith('graphql_client_codegen::schema')]
         table = {}
         terminal = False
-        for a in m['arms']:
-            ps = repr(P.pat_summary(a['pat']))
-            key = None
-            for k in want:
-                if ('::' + k) in ps:
-                    key = k
-            if key:
-                vals = set()
-                base_conds = len(P.path_conds(fn, a['body']))
+        npush = 0
+        first_push = None
+        in_loop = False
 
-                def quals_of(e_):
-                    return {s_['res']['path'].split('::')[-1] for s_ in walk(e_) if s_['k'] == 'path' and 'GraphqlTypeQualifier::' in s_['res'].get('path', '')}
-
-                def scan_pushes(f_, body_, base_, argmap, depth):
-                    """pushes onto a Vec<GraphqlTypeQualifier> in body_ (and in workspace helpers it calls); each must be unconditional"""
-                    for n_ in walk(body_):
-                        if n_['k'] == 'mcall' and n_['method'] in ('push', 'insert', 'push_front', 'extend') and 'GraphqlTypeQualifier' in (n_['recv'].get('ty', '') + n_['recv'].get('aty', '')):
-                            arg = n_['args'][-1]
-                            got = quals_of(arg)
-                            if not got and arg.get('k') == 'path' and arg['res'].get('r') == 'local':
-                                got = argmap.get(arg['res']['hid'], set())
-                            vals.update(got or {'<computed>'})
-                            if n_['method'] != 'push':
-                                vals.add('<not-appended>')
-                            if len(P.path_conds(f_, n_)) > base_:
-                                vals.add('<conditional>')
-                        elif n_['k'] == 'call' and depth > 0:
-                            for lf in ctx.pv.local_fns(n_.get('callee')):
-                                if lf.from_macro or not any('GraphqlTypeQualifier' in (a_.get('ty', '') + a_.get('aty', '')) for a_ in n_['args']):
-                                    continue
-                                amap = {}
-                                for i_, prm in enumerate(lf.params):
-                                    if prm.get('k') == 'bind' and i_ < len(n_['args']):
-                                        amap[prm['hid']] = quals_of(n_['args'][i_])
-                                if len(P.path_conds(f_, n_)) > base_:
-                                    vals.add('<conditional>')
-                                scan_pushes(lf, lf.body, 0, amap, depth - 1)
-                scan_pushes(fn, a['body'], base_conds, {}, 2)
-                # push must come before the descent (assignment of the cursor)
-                order_ok = True
-                stmts = a['body'].get('stmts', []) if a['body'].get('k') == 'block' else []
-                seen_assign = False
-                for st in stmts:
-                    e = st.get('e') if st['k'] == 'stmt' else None
-                    if e is None:
+        def keys_of(pat_repr):
+            return {k for k in want if ('::' + k) in pat_repr}
+        for f_ in family:
+            for n_ in walk(f_.body):
+                if not (n_['k'] == 'mcall' and n_['method'] in ('push', 'insert', 'push_front', 'extend') and
+                        'GraphqlTypeQualifier' in (n_['recv'].get('ty', '') + n_['recv'].get('aty', '')) and 'Vec<' in (n_['recv'].get('ty', '') + n_['recv'].get('aty', ''))):
+                    continue
+                npush += 1
+                first_push = first_push or n_
+                pcs = P.path_conds(f_, n_)
+                arm_keys = set()
+                cond_push = False
+                for pc in pcs:
+                    if pc[0] == 'match':
+                        arm_keys |= keys_of(repr(pc[2]))
+                    elif pc[0] == 'if':
+                        cond_push = True
+                if any(p_.get('k') == 'loop' or p_.get('k') == 'for' for p_, r_, c_ in f_.ancestors(n_)):
+                    in_loop = True
+                else:
+                    # appended in a helper that the walk calls once per wrapper
+                    for g_ in family:
+                        for c_ in cgx.sites.get((g_.key, f_.key), []):
+                            if any(p_.get('k') in ('loop', 'for') for p_, r_, cc_ in g_.ancestors(c_)):
+                                in_loop = True
+                # the value pushed, with the conditions under which each alternative is pushed (call sites of a
+                # helper contribute the arm they sit in)
+                t = ctx.pv.eval(f_, n_['args'][-1], {}, 0)
+                for conds, leaf in P.leaves(t):
+                    ks = set(arm_keys)
+                    for c in conds:
+                        if c[0] == 'match':
+                            ks |= keys_of(repr(c[2]))
+                        elif c[0] == 'if':
+                            pass
+                    val = leaf[1].split('::')[-1] if leaf[0] == 'global' and 'GraphqlTypeQualifier::' in leaf[1] else '<computed>'
+                    if leaf[0] == 'diverge':
                         continue
-                    if e.get('k') == 'assign':
-                        seen_assign = True
-                table[key] = vals
-            if 'NamedType' in ps or (fr == 'json' and "('ctor', 'std::prelude::v1::None', ())" in ps and 'Some' in ps):
-                if any(n['k'] == 'ret' for n in walk(a['body'])):
-                    terminal = True
-        good = all(table.get(k) == {v} for k, v in want.items())
-        if good and terminal:
-            obs.append(ok('TYPES-3', fr + '/table', 'list -> List, non-null -> Required, appended outer-to-inner; ends at the named type', m.get('sp', '')))
+                    for k in (ks or {'<unkeyed>'}):
+                        table.setdefault(k, set()).add(val)
+                        if n_['method'] != 'push':
+                            table[k].add('<not-appended>')
+                        if cond_push:
+                            table[k].add('<conditional>')
+            # terminal: the named type ends the walk
+            for m_ in f_.walk(lambda x: x['k'] == 'match'):
+                for a in m_['arms']:
+                    ps = repr(P.pat_summary(a['pat']))
+                    if 'NamedType' in ps or (fr == 'json' and "('ctor', 'std::prelude::v1::None', ())" in ps and 'Some' in ps):
+                        if any(x['k'] == 'ret' for x in walk(a['body'])):
+                            terminal = True
+        m = first_push or {}
+        if npush == 0 or not in_loop:
+            obs.append(undecided('TYPES-3', fr + '/shape', 'extractor does not append qualifiers in a loop (%d appends found)' % npush, fn.loc))
         else:
-            obs.append(bad('TYPES-3', fr + '/table', 'qualifier table is %s (terminal on named type: %s)' % ({k: sorted(v) for k, v in table.items()}, terminal), m.get('sp', ''),
-                           'list / non-null nesting is read wrongly from this schema format'))
-        # a stored qualifier list is written once, by appending in its extractor, and never edited afterwards
-        extractor_fns.add(fn.key)
+            good = all(table.get(k) == {v} for k, v in want.items()) and set(table) <= set(want)
+            if good and terminal:
+                obs.append(ok('TYPES-3', fr + '/table', 'list -> List, non-null -> Required, appended outer-to-inner; ends at the named type', m.get('sp', '')))
+            else:
+                obs.append(bad('TYPES-3', fr + '/table', 'qualifier table is %s (terminal on named type: %s)' % ({k: sorted(v) for k, v in table.items()}, terminal), m.get('sp', ''),
+                               'list / non-null nesting is read wrongly from this schema format'))
         # name lookup
         if fr == 'sdl':
             lk = [n for n in walk(fn.body) if n['k'] in ('call', 'mcall') and any(p.endswith('Schema::find_type_id') for p in H.callee_paths(n))]
